@@ -7,6 +7,8 @@ var reserved = []string{
 	"bool", "byte", "complex64", "complex128", "error", "float32", "float64", "int", "int8", "int16", "int32", "int64", "rune", "string", "uint", "uint8", "uint16", "uint32", "uint64", "uintptr", "true", "false", "iota", "nil", "append", "cap", "close", "clear", "min", "max", "complex", "copy", "delete", "imag", "len", "make", "new", "panic", "print", "println", "real", "recover", "any", "comparable",
 	/* common variables */
 	"err",
+	/* can only be declared as a function */
+	"init",
 }
 
 // IsReservedWord returns if this is a reserved word in go
